@@ -246,7 +246,11 @@ def run(ctx, report):
                     all_ok = g['errors'] == 0 and all(t['errors'] == 0 for t in g['sets'])
                     if (ak9[1] == 'A') != all_ok:
                         only_env = all(t['errors'] == 0 for t in g['sets']) and g['phase_errors']['g'] == 0
-                        report.fail('C05:group-acceptance:%s:%s' % (ak9[1], 'errors-on-GS-GE-lines-only' if (ak9[1] == 'A' and only_env) else 'other'),
+                        # ... or the only errors inside are on the ST / SE lines of its sets (not counted by the set either)
+                        sets_env_only = g['phase_errors']['g'] == 0 and all(t['errors'] == 0 or (t['body'] == 0 and t['st_err'] == 0) for t in g['sets'])
+                        why_g = 'errors-on-GS-GE-lines-only' if (ak9[1] == 'A' and only_env) else (
+                            'errors-on-ST-SE-lines-of-its-sets-only' if (ak9[1] == 'A' and sets_env_only) else 'other')
+                        report.fail('C05:group-acceptance:%s:%s' % (ak9[1], why_g),
                                     'group marked %s, errors inside: %s' % (ak9[1], not all_ok), inp)
     logging.disable(logging.NOTSET)
 
